@@ -1,8 +1,7 @@
 #!/usr/bin/env python3
 """C31  File selection and path matching follow the documented rules.
 
-prove:      coq/theories/Properties_C31.v (PathMatch::match loop = documented pattern language on the
-            class star_ok + refutation outside it; iterator facts; file lister = sorted set of selected files,
+prove:      coq/theories/Properties_C31.v (PathMatch::match loop = documented pattern language; iterator facts; file lister = sorted set of selected files,
             independent of the enumeration order)
 correspond: extracted model (Path/Run.v) vs harness/vh_c31.cpp on PathMatch::match, PathIterator::read,
             Path::simplifyPath, Path::acceptFile, Path::identify, FileLister::recursiveAddFiles (real file
@@ -24,7 +23,6 @@ import vlib
 from props import path_common as G
 
 PID = "C31"
-K_STAR = "pm:wildcard-before-star"
 K_DSEP = "iter:inner-double-separator"
 K_ROOT = "iter:dotdot-at-root"
 
@@ -185,18 +183,15 @@ def check(run, replay):
         run.count("pm-vs-spec", None, nontrivial=pm_nt(c, i, i), bucket="agree" if i == s else "differ")
     run.stream("pm-vs-spec")["disagreements"] += len(bad)
     if bad:
-        sok = model_eval("starok", [[c[0], c[2]] for c, _, _ in bad])
         rcn = model_eval("readscanon", [[c[0], c[1], c[2]] for c, _, _ in bad])
         size = lambda d: (len(d[0][0]) + len(d[0][1]) + len(d[0][2]), d[0])
         classes = {}
-        for (c, i, s), k, rc2 in zip(bad, sok, rcn):
+        for (c, i, s), rc2 in zip(bad, rcn):
             if rc2[2] == b"1":
                 # the pattern canonicalises to the empty string ("x/.."): the documentation does not say what it matches
                 run.count("pm-vs-spec", None, bucket="unspecified(empty canonical pattern)")
                 continue
-            if k == [b"0"]:
-                key = K_STAR
-            elif rc2[:2] != [b"1", b"1"]:
+            if rc2[:2] != [b"1", b"1"]:
                 # the iterator does not read the canonical form of the pattern or of the path
                 praw = G_join([c[2], c[0]]) if G_relpat(c[0]) else c[0]
                 traw = c[1] if c[1].startswith(b"/") else G_join([c[2], c[1]])
@@ -209,18 +204,17 @@ def check(run, replay):
             else:
                 key = "pmspec:%s:%s:%s:%s" % (c[0].hex(), c[1].hex(), c[2].hex(), c[3].decode())
             classes.setdefault(key, []).append((c, i, s))
-        # the three classes first, then the smallest unclassified inputs
-        order = sorted(classes.items(), key=lambda kv: (0, kv[0]) if kv[0] in (K_STAR, K_DSEP, K_ROOT) else (1, size(min(kv[1], key=size))))
+        # the known classes first, then the smallest unclassified inputs
+        order = sorted(classes.items(), key=lambda kv: (0, kv[0]) if kv[0] in (K_DSEP, K_ROOT) else (1, size(min(kv[1], key=size))))
         for key, lst in order[:6]:
             c, i, s = min(lst, key=size)
-            why = {K_STAR: " (a '?' or '*' directly before a '*' in the pattern)",
-                   K_DSEP: " (the iterator drops the separator at an inner '//')",
+            why = {K_DSEP: " (the iterator drops the separator at an inner '//')",
                    K_ROOT: " (the iterator loses the root at '/..')"}.get(key, "")
             run.violation(key, "PathMatch::match(%r, %r, base %r, %s) = %s but the documented rules say %s%s"
                           % (c[0], c[1], c[2], c[3].decode(), vlib.show(i), vlib.show(s), why),
                           {"input": dict(zip(["pattern", "path", "base", "mode", "syntax"], vlib.show(c))), "impl": vlib.show(i), "spec": vlib.show(s),
                            "count_in_this_run": len(lst),
-                           "how": "echo '%s' | build/harness/vh_c31 pm ; end to end: `cppcheck '-i?*a.c' dir` does not exclude dir/ba.c, `cppcheck -isub src//sub` still checks src/sub/*.c"
+                           "how": "echo '%s' | build/harness/vh_c31 pm ; end to end e.g. `cppcheck -isub src//sub` still checks src/sub/*.c"
                                   % vlib.enc_case(c)})
 
     # ---- stream 3: Path::simplifyPath / acceptFile / identify (tie)
